@@ -312,6 +312,44 @@ pub enum NextItem {
 }
 
 /// Returns the next line to assemble and whether it is an `.elif` whose condition decides the arm
+/// Deepest nesting of parentheses and prefix operators that is handed to the recursive line parser
+const MAX_NESTING: usize = 64;
+
+/// Whether the nesting of parentheses and prefix operators in a line is shallow enough for the recursive parser
+fn nesting_is_parsable(line: &str) -> bool {
+    let mut depth: usize = 0;
+    let mut prefix_run: usize = 0;
+    for c in line.chars() {
+        match c {
+            '(' => {
+                depth += 1;
+                prefix_run = 0;
+            }
+            ')' => {
+                if depth > 0 {
+                    depth -= 1;
+                }
+                prefix_run = 0;
+            }
+            '-' | '~' | '!' => prefix_run += 1,
+            _ => prefix_run = 0,
+        }
+        if depth + prefix_run > MAX_NESTING {
+            return false;
+        }
+    }
+    true
+}
+
+/// Parses a line that may be skipped: anything that is not a shallow, well formed line is no directive
+fn scan_line(line: &str) -> Option<Document> {
+    if nesting_is_parsable(line) {
+        document::line(line).ok()
+    } else {
+        None
+    }
+}
+
 fn skip<'a>(
     iter: &mut dyn Iterator<Item = (usize, &'a str)>,
     context: &ParseContext,
@@ -328,7 +366,7 @@ fn skip<'a>(
                 let name = context.macros.name.borrow().clone();
                 let mut items = vec![];
                 while let Some((line_num, line)) = iter.next() {
-                    if let Ok(item) = document::line(line) {
+                    if let Some(item) = scan_line(line) {
                         if let Document::DirectiveLine(_, directive, _) = item {
                             if other == NextItem::EndMacro && directive == Directive::EndMacro
                                 || directive == Directive::EndM
@@ -343,7 +381,7 @@ fn skip<'a>(
                 context.macros.macroses.borrow_mut().insert(name, items);
             } else {
                 while let Some((num, line)) = iter.next() {
-                    if let Ok(item) = document::line(line) {
+                    if let Some(item) = scan_line(line) {
                         if let Document::DirectiveLine(_, directive, _) = item {
                             if other == NextItem::EndIf || other == NextItem::EndChain {
                                 if directive == Directive::If
@@ -402,6 +440,12 @@ pub fn parse_iter<'a>(
         if let Some((line_num, line)) = next {
             next_item = NextItem::NewLine; // clear conditional flag to typical state
             let line_num = line_num + 1;
+            if !nesting_is_parsable(line) {
+                bail!(
+                    "expression nested too deeply, {}",
+                    CodePoint { line_num, num: 1 }
+                );
+            }
             let parsed_item = document::line(line);
             if let Ok(item) = parsed_item {
                 match item {
